@@ -245,8 +245,19 @@ class C06(Property):
         [["ka-deva", "top", 1], ["ka-deva", "bottom", 0], ["anusvara-deva", "_top", 1]],
     ]
 
+    # ligatures with ten or more components (Arabic word ligatures): two-digit component numbers
+    WIDE_SEEDS = [
+        [["f_i", "top_1", 0], ["f_i", "top_2", 1], ["f_i", "top_10", 2], ["f_i", "top_11", 3],
+         ["f_i", "top_12", 1], ["acutecomb", "_top", 1]],
+        [["f_i", "top_1", 0], ["f_i", "top_11", 2], ["f_i", "bottom_10", 3], ["acutecomb", "_top", 1],
+         ["cedillacomb", "_bottom", 0]],
+    ]
+
     def initial(self, b):
         out = [[{"env": e}] for e in ENVS]
+        for seed in self.WIDE_SEEDS:
+            for e in ENVS:
+                out.append([{"env": e, "seed": len(seed), "grow": 1}] + seed)
         # start from non-initial states too: rich configurations (several candidate classes for one
         # pair, multi-component ligatures, mark-to-mark chains), each expanded by every further op
         for seed in self.SEEDS:
@@ -266,7 +277,7 @@ class C06(Property):
         if head["env"] == ["fea-markclass"]:
             maxd = b["env_depth"] + 1  # mark-class grouping needs >= 4 anchors to have something to group
         if "seed" in head:
-            maxd = head["seed"] + 2
+            maxd = head["seed"] + head.get("grow", 2)
         if head.get("prev") is not None:
             maxd = 3  # two anchors on top of the history
         if len(h) >= maxd:
